@@ -40,6 +40,8 @@ type Drive struct {
 	case_  int
 	stepNo int
 	byProp map[string]int
+	hangs  int
+	abort  bool // set after repeated hangs: a hung call keeps a core busy for ever, so the driver stops early; the hang events are in the trace and are judged there
 }
 
 var drivers = map[string]driverFn{}
@@ -52,6 +54,12 @@ func init() {
 func (d *Drive) call(prop, act string, args J) J {
 	e := newEnv(d.seed)
 	obs := runAct(e, Step{Act: act, Prop: prop}, args)
+	if h, _ := obs["hang"].(bool); h {
+		d.hangs++
+		if d.hangs >= 2 {
+			d.abort = true
+		}
+	}
 	d.stepNo++
 	d.res.Steps++
 	d.byProp[prop]++
@@ -300,7 +308,7 @@ func init() {
 	// random encodable messages: encode, decode what was encoded, re-encode (C03 C05 C12)
 	drivers["randmsg"] = func(d *Drive) {
 		g := gen{d.rng}
-		for i := 0; i < d.n; i++ {
+		for i := 0; i < d.n && !d.abort; i++ {
 			d.newCase()
 			m := g.message()
 			o := d.call("C05", "encode", J{"msg": m})
@@ -313,7 +321,7 @@ func init() {
 	// random EAP packets (C14)
 	drivers["randeap"] = func(d *Drive) {
 		g := gen{d.rng}
-		for i := 0; i < d.n; i++ {
+		for i := 0; i < d.n && !d.abort; i++ {
 			d.newCase()
 			p := g.eap()
 			o := d.call("C14", "eap_encode", J{"eap": p})
@@ -328,7 +336,7 @@ func init() {
 		g := gen{d.rng}
 		kinds := []string{"SA", "KE", "IDi", "IDr", "CERT", "CERTREQ", "AUTH", "NONCE", "N", "D", "V", "TSi", "TSr", "CP", "EAP", "SK",
 			"eap_identity", "eap_notification", "eap_nak", "eap_expanded", "eap_aka"}
-		for i := 0; i < d.n; i++ {
+		for i := 0; i < d.n && !d.abort; i++ {
 			d.newCase()
 			var b Oct
 			switch d.rng.Intn(4) {
